@@ -42,6 +42,8 @@ pub fn run(bin: &str, rule_text: &str, channel: &Channel) -> Result<CliOut, Stri
 /// A perturbed process environment: cleared, then exactly these variables; another working directory.
 #[derive(Debug, Clone)]
 pub struct Env {
+    /// start from an empty environment (otherwise the variables are added to the inherited one)
+    pub clear: bool,
     pub vars: Vec<(String, String)>,
     pub cwd: String,
 }
@@ -96,7 +98,9 @@ pub fn candidate_env_names(bin: &str) -> Vec<String> {
 fn run_limited(bin: &str, rule_text: &str, channel: &Channel, limit_s: u64, env: Option<&Env>) -> Result<CliOut, String> {
     let mut cmd = Command::new(bin);
     if let Some(e) = env {
-        cmd.env_clear();
+        if e.clear {
+            cmd.env_clear();
+        }
         for (k, v) in &e.vars {
             cmd.env(k, v);
         }
